@@ -35,6 +35,9 @@ FIRST_LOOK = {  # recorded when the seed was first run, before any rule was touc
  "C11-7": "caught", "C11-8": "caught", "C11-9": "missed",
  "C08-7": "missed", "C08-8": "missed by C08, caught by C06/C07", "C08-9": "missed",
  "C07-7": "missed by C07, caught by C06", "C07-8": "missed", "C07-9": "missed",
+ "C35-7": "caught", "C35-8": "caught", "C35-9": "caught",
+ "C36-7": "missed", "C36-8": "missed", "C36-9": "caught",
+ "C10-7": "caught", "C10-8": "missed", "C10-9": "caught (by R10g, written from the same agent's side observation before the seed was run)",
 }
 def key(d):
     m = re.match(r".*/C(\d+)-(\d+)$", d); return (int(m.group(1)), int(m.group(2)))
